@@ -483,6 +483,7 @@ impl CMDDriver {
 //@after user_interface :: proof { verif_tr.note_prompt(); }
 //@after source_map.get :: proof { verif_ct.note_lookup((*($1)) as int, idx as int, *pos as int); }
 //@after get_err_pos :: proof { verif_ct.note_cite(line as int, ($2) as int); }
+//@after verif_io::out4 :: proof { assert(verif_log.entries.last()[2] == (*pos - start) as u64); } //# C16 check.undefined_label_message_gives_the_column_of_the_use_in_its_line
 //@str l
 //@before match lmap.get(l) { :: proof { assert(pctx.undefined_labels@.contains((*pos, *l))); lemma_least_undefined(verif_it.snapshot@.remaining(), verif_it.history@.len() as int, undefined_labels@, lmap@, (*pos, *l)); if !lmap@.contains_key(*l) { assert(undefined(verif_tr.pre, (*pos, *l))); } }
     requires
